@@ -40,6 +40,14 @@ def programs():
     P['loop-auto-ping||close'] = dict(z=None, loop='auto-ping', loop_n=2, threads=[[['close', 1000, 'bye']]])
     P['loop-server-ping-close||close||send'] = dict(z=None, loop='server-ping-close', loop_n=3,
                                                    threads=[[['close', 1000, 'bye']], [['send_binary', b'T2-0']]])
+    P['close||close||send_text'] = dict(z=None, threads=[[['close', 1000, 'a']], [['close', 1001, 'b']], [['send_text', 'T2-0']]])
+    P['close||text||binary-z'] = dict(z='permessage-deflate', threads=[[['close', 1000, 'bye']], [['send_text', 'T1-0 kkkkkkkkkkkk']],
+                                                                         [['send_binary', b'T2-0 kkkkkkkkkkkk']]])
+    P['loop-server-close||close||send'] = dict(z=None, loop='server-close', loop_n=3, threads=[[['close', 1001, 'app']], [['send_ping', b'T2-0']]])
+    P['close||close||send_text'] = dict(z=None, threads=[[['close', 1000, 'a']], [['close', 1001, 'b']], [['send_text', 'T2-0']]])
+    P['close||text||binary-z'] = dict(z='permessage-deflate', threads=[[['close', 1000, 'bye']], [['send_text', 'T1-0 kkkkkkkkkkkk']],
+                                                                         [['send_binary', b'T2-0 kkkkkkkkkkkk']]])
+    P['loop-server-close||close||send'] = dict(z=None, loop='server-close', loop_n=3, threads=[[['close', 1001, 'app']], [['send_ping', b'T2-0']]])
     return P
 
 
